@@ -114,7 +114,7 @@ func scanBlock(b []mlua.Stmt) scan {
 func TestC13(t *testing.T) {
 	rec := ev.New("C13")
 	defer Finish(t, rec)
-	rec.Rule("rapid-generated MiniLua programs (closure-heavy profile: nested functions, varargs, constants of every type incl. mininteger, -0.0, inf, NaN expressions, short and long strings with NUL bytes, upvalue layouts) with a drawn argument tuple, each checked through three routes: (R1) load(string.dump(load(src))) run with the same arguments must produce the model's trace (events, results, error values and chunk:line: positions); (R2) the program with every function literal that has no free local variable wrapped in redump(f) = load(string.dump(f)) must produce the model's trace; (R3) string.dump(f) == string.dump(f), string.dump(load(string.dump(f))) == string.dump(f), (whether an independent second compilation dumps to the same bytes is recorded but not required). Oracle: reference interpreter (R1, R2), byte equality (R3). Non-trivial: the chunk contains >= 1 nested function and integer, float and string constants; distinct by program text + arguments.")
+	rec.Rule("rapid-generated MiniLua programs (closure-heavy profile: nested functions, varargs, constants of every type incl. mininteger, -0.0, inf, NaN expressions, short and long strings with NUL bytes, upvalue layouts) with a drawn argument tuple, each checked through three routes: (R1) load(string.dump(load(src))) run with the same arguments must produce the model's trace (events, results, error values and chunk:line: positions); (R2) the program with every function literal that has no free local variable wrapped in redump(f) = load(string.dump(f)) must produce the model's trace; (R3) string.dump(f) == string.dump(f), string.dump(load(string.dump(f))) == string.dump(f), (whether an independent second compilation dumps to the same bytes is recorded but not required). Plus size sweeps (chunks built by construction, swept across the compiler's and the dump format's limits, run directly and through dump+load), upvalue freshness of reloaded functions, and interrupted dumps: string.dump(f) under a x1.125 ladder of CPU and memory limits (the kill point moves through every phase of the dump), after every attempt dumps of f and of a small function must be byte-identical to what they were. Oracle: reference interpreter (R1, R2), byte equality (R3). Non-trivial: the chunk contains >= 1 nested function and integer, float and string constants; distinct by program text + arguments.")
 	rec.Assume("only dumps produced by golua itself are loaded (hand-made binary chunks are outside the property)")
 	progcheck.ApplyKnownFindings(rec)
 
@@ -132,6 +132,14 @@ func TestC13(t *testing.T) {
 			k, _ := strconv.Atoi(strings.TrimPrefix(c.Note, "upvalues:"))
 			if msg := checkUpvalues(k); msg != "" {
 				rec.Violation("upvalues", c, msg)
+			}
+			return
+		}
+		if strings.HasPrefix(c.Note, "residue:") {
+			parts := strings.Split(c.Note, ":")
+			n, _ := strconv.Atoi(parts[len(parts)-1])
+			if msg, _ := checkResidue(parts[1], n); msg != "" {
+				rec.Violation("residue", c, msg)
 			}
 			return
 		}
@@ -186,6 +194,24 @@ func TestC13(t *testing.T) {
 		if msg := checkUpvalues(k); msg != "" {
 			src, _ := upvalueCase(k)
 			rec.Violation("upvalues", progcheck.Case{Note: fmt.Sprintf("upvalues:%d", k)}, msg+"\n--- chunk ---\n"+clipSrc(src))
+			return
+		}
+	}
+
+	// dumps interrupted by a quota leave nothing behind
+	for _, rtpl := range residueTemplates {
+		idx++
+		if !rec.Mine(idx) {
+			continue
+		}
+		rec.Eval()
+		rec.Class("residue-after-killed-dump")
+		msg, killed := checkResidue(rtpl.name, rtpl.n)
+		if killed >= 10 {
+			rec.NonTrivial(fmt.Sprint("residue:", rtpl.name, rtpl.n))
+		}
+		if msg != "" {
+			rec.Violation("residue", progcheck.Case{Note: fmt.Sprintf("residue:%s:%d", rtpl.name, rtpl.n)}, fmt.Sprintf("%s with n=%d: %s", rtpl.name, rtpl.n, msg))
 			return
 		}
 	}
